@@ -258,13 +258,8 @@ func checkC11(p *Prog, r *Report) {
 				if hasConv != nil && a.Op == "var" && a.Obj == hasConv {
 					okHas = true
 				}
-				if a.Op == "<" && a.Args[0].Op == "len" && termHasField(a.Args[0], fAcc) {
-					if a.Args[1].Op == "cap" && termHasField(a.Args[1], fAcc) {
-						okRoom = true
-					}
-					if a.Args[1].IsConst() && a.Args[1].Int <= backlog {
-						okRoom = true
-					}
+				if p.roomTest(lp, a, fAcc, backlog) {
+					okRoom = true
 				}
 			}
 		}
@@ -331,7 +326,7 @@ func checkC11(p *Prog, r *Report) {
 				return true
 			}
 			nIdx++
-			it := p.Term(idx)
+			it := p.resolveSingleDefs(fi, p.Term(idx))
 			ok := false
 			what := ""
 			if it.Op == "call" && it.Obj.Name() == "String" && len(it.Args) == 1 {
@@ -346,11 +341,20 @@ func checkC11(p *Prog, r *Report) {
 							// its callers pass the session's own remote
 							all := true
 							for _, cs := range p.CallsTo(p.Method("Listener", "closeSession")) {
-								if at := p.Term(cs.Call.Args[0]); at.Op != "fld" || at.Obj != p.Field("UDPSession", "remote") {
+								at := p.Term(cs.Call.Args[0])
+								isRemote := at.Op == "fld" && at.Obj == p.Field("UDPSession", "remote")
+								// or the source address of the datagram being processed by the listener
+								isSource := false
+								if at.Op == "var" {
+									if pv, okp := at.Obj.(*types.Var); okp && p.isParam(pv) && strings.HasSuffix(pv.Type().String(), "net.Addr") && rootFuncInfo(cs.Fn).Name == "(*Listener).packetInput" {
+										isSource = true
+									}
+								}
+								if !isRemote && !isSource {
 									all = false
 								}
 							}
-							ok, what = all, "the closing session's remote"
+							ok, what = all, "the closing session's remote (or the datagram's source)"
 						}
 					}
 				}
@@ -378,6 +382,34 @@ func checkC11(p *Prog, r *Report) {
 		r.bad("C11.D5", input.Name, p.Pos(input.Node), "conversation test", "Input does not compare the segment's conversation id with kcp.conv", "")
 	} else {
 		want := eq(tVar(convLocal), tFld(tVar(recv), fConv))
+		// the id compared is the one of the segment being processed: it is read inside the
+		// segment loop, from the start of the not yet consumed input
+		{
+			var loop ast.Node
+			for _, s := range p.CallsTo(p.Method("KCP", "parse_una")) {
+				if s.Fn == input {
+					loop = enclosingLoop(p, s.Call)
+				}
+			}
+			dataParam := input.paramObj(p, 0)
+			okPer := loop != nil
+			why := "the segment loop was not found"
+			for _, as := range p.Assignments(input, convLocal) {
+				if as.Rhs == nil {
+					okPer, why = false, "the conversation id is modified in place"
+					continue
+				}
+				if loop == nil || !nodeWithin(p, as.Node, loop) {
+					okPer, why = false, "the conversation id is read once, before the segment loop: only the first segment of a datagram is checked, later segments of another conversation are merged into this session's stream"
+					continue
+				}
+				t := p.Term(as.Rhs)
+				if !(t.Op == "call" && t.Obj != nil && t.Obj.Name() == "Uint32" && len(t.Args) > 0 && t.Args[len(t.Args)-1].Op == "var" && t.Args[len(t.Args)-1].Obj == dataParam) {
+					okPer, why = false, "the conversation id is not read from the start of the current segment: "+exprString(as.Rhs)
+				}
+			}
+			r.check(okPer, "C11.D5", input.Name, p.Pos(input.Node), "conversation id read per segment", "conv := Uint32(data) inside the segment loop", why)
+		}
 		for _, name := range []string{"parse_una", "shrink_buf", "parse_ack", "parse_fastack", "ack_push", "parse_data"} {
 			for _, s := range p.CallsTo(p.Method("KCP", name)) {
 				if s.Fn != input {
@@ -500,9 +532,45 @@ func checkC11(p *Prog, r *Report) {
 		}
 	}
 	if fi := p.FuncOf(sameAddr); fi != nil {
-		src := exprStringsOf(fi)
-		ok := strings.Contains(src, ".Port") && strings.Contains(src, ".Zone") && strings.Contains(src, "IP.Equal")
-		r.check(ok, "C11.D6", fi.Name, p.Pos(fi.Node), "sameUDPAddr compares IP, port and zone", "all three", "sameUDPAddr ignores part of the address: datagrams from another port/zone of the same host are accepted")
+		// the predicate as a truth table over its atoms (no execution: the body is evaluated over
+		// boolean assignments to the comparisons it contains)
+		a, b := tVar(fi.paramObj(p, 0)), tVar(fi.paramObj(p, 1))
+		fPort, fZone, fIP := fieldOfExt(fi.paramObj(p, 0).Type(), "Port"), fieldOfExt(fi.paramObj(p, 0).Type(), "Zone"), fieldOfExt(fi.paramObj(p, 0).Type(), "IP")
+		role := func(t *Term) string {
+			switch {
+			case t.Key() == eq(a, mk("nil")).Key():
+				return "anil"
+			case t.Key() == eq(b, mk("nil")).Key():
+				return "bnil"
+			case t.Key() == eq(tFld(a, fPort), tFld(b, fPort)).Key():
+				return "port"
+			case t.Key() == eq(tFld(a, fZone), tFld(b, fZone)).Key():
+				return "zone"
+			case t.Op == "call" && t.Obj != nil && t.Obj.Name() == "Equal" && len(t.Args) == 2 &&
+				((t.Args[0].Key() == tFld(a, fIP).Key() && t.Args[1].Key() == tFld(b, fIP).Key()) || (t.Args[0].Key() == tFld(b, fIP).Key() && t.Args[1].Key() == tFld(a, fIP).Key())):
+				return "ip"
+			}
+			return ""
+		}
+		tbl := boolTable(p, fi, role, []string{"anil", "bnil", "port", "zone", "ip"})
+		ok := tbl.ok
+		why := tbl.why
+		if ok {
+			for env, got := range tbl.rows {
+				want := env&1 == 0 && env&2 == 0 && env&4 != 0 && env&8 != 0 && env&16 != 0
+				// rows with a nil argument: the field comparisons are not evaluated, any value of the other atoms must give false
+				if got != want {
+					ok = false
+					why = fmt.Sprintf("for a==nil:%v b==nil:%v port equal:%v zone equal:%v IP equal:%v the function returns %v", env&1 != 0, env&2 != 0, env&4 != 0, env&8 != 0, env&16 != 0, got)
+					break
+				}
+			}
+		}
+		if !tbl.ok {
+			r.undecided("C11.D6", fi.Name, p.Pos(fi.Node), "sameUDPAddr compares IP, port and zone", "the predicate's body is outside what the truth-table evaluator understands: "+tbl.why)
+		} else {
+			r.check(ok, "C11.D6", fi.Name, p.Pos(fi.Node), "sameUDPAddr compares IP, port and zone", "true exactly when both are non-nil and IP, port and zone are all equal", "sameUDPAddr is not the conjunction of the three comparisons ("+why+"): a dialled session accepts datagrams from another port or zone of its peer's host (or refuses its peer)")
+		}
 	}
 
 	// ---- D7
@@ -556,4 +624,116 @@ func exprStringsOf(fi *FuncInfo) string {
 		return true
 	})
 	return sb.String()
+}
+
+type boolTableResult struct {
+	ok   bool
+	why  string
+	rows map[int]bool // assignment (bit i = atom i true) -> result
+}
+
+// boolTable evaluates a function whose body consists of if/return statements over
+// boolean combinations of recognisable atoms, for every assignment to the atoms.
+func boolTable(p *Prog, fi *FuncInfo, role func(*Term) string, atoms []string) boolTableResult {
+	idx := map[string]int{}
+	for i, a := range atoms {
+		idx[a] = i
+	}
+	res := boolTableResult{ok: true, rows: map[int]bool{}}
+	var evalT func(t *Term, env int) (bool, bool)
+	evalT = func(t *Term, env int) (bool, bool) {
+		switch t.Op {
+		case "true":
+			return true, true
+		case "false":
+			return false, true
+		case "not":
+			v, ok := evalT(t.Args[0], env)
+			return !v, ok
+		case "&&":
+			out := true
+			for _, a := range t.Args {
+				v, ok := evalT(a, env)
+				if !ok {
+					return false, false
+				}
+				out = out && v
+			}
+			return out, true
+		case "||":
+			out := false
+			for _, a := range t.Args {
+				v, ok := evalT(a, env)
+				if !ok {
+					return false, false
+				}
+				out = out || v
+			}
+			return out, true
+		case "!=":
+			v, ok := evalT(eq(t.Args[0], t.Args[1]), env)
+			return !v, ok
+		}
+		if ro := role(t); ro != "" {
+			return env&(1<<idx[ro]) != 0, true
+		}
+		res.why = "unrecognised comparison " + pretty(t.Key())
+		return false, false
+	}
+	var evalStmts func(list []ast.Stmt, env int) (val, returned, ok bool)
+	evalStmts = func(list []ast.Stmt, env int) (bool, bool, bool) {
+		for _, st := range list {
+			switch x := st.(type) {
+			case *ast.ReturnStmt:
+				if len(x.Results) != 1 {
+					return false, false, false
+				}
+				v, ok := evalT(p.Term(x.Results[0]), env)
+				return v, true, ok
+			case *ast.IfStmt:
+				if x.Init != nil {
+					return false, false, false
+				}
+				cv, ok := evalT(p.Term(x.Cond), env)
+				if !ok {
+					return false, false, false
+				}
+				if cv {
+					v, ret, ok := evalStmts(x.Body.List, env)
+					if !ok || ret {
+						return v, ret, ok
+					}
+				} else if x.Else != nil {
+					var l []ast.Stmt
+					switch e := x.Else.(type) {
+					case *ast.BlockStmt:
+						l = e.List
+					case *ast.IfStmt:
+						l = []ast.Stmt{e}
+					}
+					v, ret, ok := evalStmts(l, env)
+					if !ok || ret {
+						return v, ret, ok
+					}
+				}
+			default:
+				res.why = fmt.Sprintf("statement %T", st)
+				return false, false, false
+			}
+		}
+		return false, false, true
+	}
+	for env := 0; env < 1<<len(atoms); env++ {
+		// with a nil argument the field atoms are meaningless: only evaluate consistent rows once
+		v, ret, ok := evalStmts(fi.Body.List, env)
+		if !ok || !ret {
+			res.ok = false
+			if res.why == "" {
+				res.why = "the body is not a chain of if/return over comparisons"
+			}
+			return res
+		}
+		res.rows[env] = v
+	}
+	return res
 }
